@@ -2,7 +2,7 @@
 import re
 
 from mirlib import AnchorMissing, describe_call, describe_operand, describe_place, describe_rvalue, dom_guards, guards, switch_desc, _suffix_match
-from rules.common import panic_sites, where
+from rules.common import cast_chain, panic_sites, where
 
 META = {
     "explanation": (
@@ -132,25 +132,41 @@ def run(ctx):
 
     with ctx.rule("C09.R2", "T5", "escape tables of printer and tokenizer are mutually inverse", floor=12) as r:
         et = ctx.saw(md.fn(suffix="literal::escape_text"))
-        enc = {}
-        ubranch = []
-        for c in et.calls:
-            if c.name != "push":
-                continue
+        # every write to the output, by the arm of the match on the current character that it belongs to
+        def lit(a):
+            return a[1:-1].encode().decode("unicode_escape") if a.startswith("'") and a.endswith("'") and len(a) > 2 else None
+        emis = [c for c in et.calls if c.name in ("push", "push_str", "extend_from_slice", "write_char", "write_str") and len(c.args) == 2]
+        emis.sort(key=lambda c: sum(1 for y in emis if y is not c and et.dominates(y.block, c.block)))
+        enc, ubranch, passthru = {}, [], []
+        for c in emis:
             a = describe_operand(et, c.args[1])
             g = dom_guards(et, c.block)
             key = [l for d, l, _ in g if d.endswith("<Some>.0") and l.isdigit()]
             if key:
-                enc.setdefault(int(key[0]), []).append(a.strip("'").encode().decode("unicode_escape") if a.startswith("'") else a)
+                enc.setdefault(int(key[0]), []).append(lit(a) if lit(a) is not None else a)
             elif any(d.startswith("Lt(") and l == "true" for d, l, _ in g):
-                ubranch.append(a)
+                ubranch.append(lit(a) if lit(a) is not None else None)
+            else:
+                passthru.append(c)
         table = {}
         for ch, seq in enc.items():
-            r.check(len(seq) == 2 and seq[0] == "\\", "escape_text/%r/backslash-then-letter" % chr(ch), where(et), "%r is written as backslash + %r" % (chr(ch), seq[-1]), "%r is written as %s" % (chr(ch), seq))
-            if len(seq) == 2:
-                table[chr(ch)] = seq[1]
+            txt = "".join(seq)
+            r.check(len(txt) == 2 and txt[0] == "\\", "escape_text/%r/backslash-then-letter" % chr(ch), where(et), "%r is written as backslash + %r" % (chr(ch), txt[-1]), "%r is written as %s" % (chr(ch), seq))
+            if len(txt) == 2:
+                table[chr(ch)] = txt[1]
         if len(table) < 7:
             raise AnchorMissing("escape_text: expected 7 single-letter escapes, found %d (%s)" % (len(table), table))
+        # every other character is copied unchanged: the value written is the iterated item itself (a byte widened to a
+        # `char` is a different character unless the byte is ASCII)
+        r.check(len(passthru) == 1, "escape_text/one-pass-through-arm", passthru[0].loc() if passthru else where(et), "one write copies a character that needs no escape", "%d writes outside the escape arms" % len(passthru))
+        for c in passthru[:1]:
+            chain = cast_chain(et, c.args[1])
+            a = describe_operand(et, c.args[1])
+            item = [d for d, l, _ in dom_guards(et, c.block) if d.endswith("<Some>.0")]
+            bytes_iter = any(x in a for x in ("bytes(", "as_bytes(", "into_bytes("))
+            widened = [t for k, t in chain if t == "char"]
+            r.check(item and a == item[0] and not (bytes_iter and widened), "escape_text/pass-through=the-same-character", c.loc(), "a character that needs no escape is written as itself (`%s`)" % a[:50],
+                    "escape_text iterates the UTF-8 bytes of the text and writes each byte `as char`: every non-ASCII character is replaced by two to four Latin-1 characters (the printed string parses as a different text)" if bytes_iter and widened else "the pass-through arm writes `%s`, which is not the current character" % a[:60])
         un = [b for b in rc.all_bodies() if b.defpath.endswith("tokens::unescape::{closure#0}")]
         if len(un) != 1:
             raise AnchorMissing("tokens::unescape closure")
@@ -185,8 +201,12 @@ def run(ctx):
         # order of emission = dominance order of the four index computations
         masks.sort(key=lambda x: sum(1 for y in masks if et.dominates(y[0], x[0])))
         shifts = [k for _, k in masks]
-        r.check(ubranch[:2] == ["'\\\\'", "'u'"] and len(ubranch) == 6 and shifts == [12, 8, 4, 0], "escape_text/control=>\\uXXXX", where(et), "other control characters are written as \\u + 4 hex digits, most significant first",
-                "control characters are written as %s with digit shifts in emission order %s" % (ubranch, shifts))
+        prefix = "".join(x for x in ubranch if x is not None)
+        ndig = sum(1 for x in ubranch if x is None)
+        consts_first = all(x is not None for x in ubranch[:len(ubranch) - ndig])
+        # leading digits may be written as the constant "0" only as far as the guard (< 0x20) makes them zero
+        r.check(consts_first and prefix == "\\u" + "0" * (4 - ndig) and 2 <= ndig <= 4 and shifts[-ndig:] == [12, 8, 4, 0][-ndig:] and len(shifts) == ndig, "escape_text/control=>\\uXXXX", where(et), "other control characters are written as \\u + 4 hex digits, most significant first",
+                "control characters are written as %r followed by %d digits with shifts in emission order %s" % (prefix, ndig, shifts))
         ush = []
         for i, j, p, rv, line in un.assigns():
             if rv[0] == "bin" and rv[1] in ("Shl", "ShlUnchecked") and rv[3][0] == "k":
@@ -215,7 +235,8 @@ def run(ctx):
             if et.term(sb)["k"] == "switch" and not et.is_cleanup(sb):
                 d = switch_desc(et, sb)
                 if d.startswith("Lt("):
-                    lt_et.add(d.split(", ", 1)[1][:-1].strip("'"))
+                    v = d.split(", ", 1)[1][:-1]
+                    lt_et.add(chr(int(v)) if v.isdigit() else v.strip("'").encode().decode("unicode_escape"))
         r.check({c for _, c in eqs} <= set(table) and {c for _, c in eqs} == {'"', "\\"}, "needs_escape/specials-are-escaped", where(ne), "needs_escape tests %s; escape_text escapes each of them" % sorted(c for _, c in eqs),
                 "needs_escape tests %s but escape_text handles %s" % (sorted(c for _, c in eqs), sorted(table)))
         r.check({c for _, c in lts} == lt_et and len(lt_et) == 1, "needs_escape/control-bound-agrees", where(ne), "both use the bound c < %r for control characters" % sorted(lt_et),
